@@ -15,8 +15,11 @@ structure Preserved (I : World → Prop) : Prop where
     I { w with ev := ev', dispatched := w.dispatched + 1 }
   /-- commands are only ever executed by an existing process -/
   exec : ∀ w p c, p < w.procs.size → I w → I (execCmd w p c).1
-  /-- only an existing (running) process is ever resumed -/
-  resume : ∀ w p f sig, p < w.procs.size → I w → I (resumeFrame w p f sig).1
+  /-- only an existing (running) process is ever resumed, and with the frame it was suspended in: `w` is a state `w0`
+      (satisfying `I`) in which `p` was blocked in frame `f`, with that `blocked` field just cleared -/
+  resume : ∀ w p f sig, p < w.procs.size →
+    (∃ w0, I w0 ∧ (w0.proc p).blocked = some f ∧ w = w0.modProc p fun y => { y with blocked := none }) →
+    I w → I (resumeFrame w p f sig).1
   finish : ∀ w p v st, I w → I (finishProc w p v st)
   /-- a process is taken out of its suspended state (resumption, start): `blocked := none`, `held` untouched -/
   clear : ∀ w p (f : Proc → Proc), (∀ x, (f x).held = x.held) → (∀ x, (f x).blocked = none) → I w → I (w.modProc p f)
@@ -73,9 +76,9 @@ theorem Preserved.resumeProc (hI : Preserved I) (w : World) (p : Pid) (sig : Int
   · exact hI.same (fail_same _ _) h
   · split
     · exact hI.same (fail_same _ _) h
-    · rename_i hst _ f _
+    · rename_i hst _ f hbl
       have hv : p < w.procs.size := valid_of_running (Decidable.not_not.1 hst)
-      have h1 := hI.resume _ p f sig (by simpa using hv) (hI.clear w p (fun y => { y with blocked := none }) (fun _ => rfl) (fun _ => rfl) h)
+      have h1 := hI.resume _ p f sig (by simpa using hv) ⟨w, h, hbl, rfl⟩ (hI.clear w p (fun y => { y with blocked := none }) (fun _ => rfl) (fun _ => rfl) h)
       split
       · rename_i w' v extra heq
         rw [heq] at h1
@@ -142,7 +145,9 @@ theorem Preserved.and {J : World → Prop} (hI : Preserved I) (hJ : Preserved J)
   same hs h := ⟨hI.same hs h.1, hJ.same hs h.2⟩
   tick he h := ⟨hI.tick he h.1, hJ.tick he h.2⟩
   exec w p c hv h := ⟨hI.exec w p c hv h.1, hJ.exec w p c hv h.2⟩
-  resume w p f sig hv h := ⟨hI.resume w p f sig hv h.1, hJ.resume w p f sig hv h.2⟩
+  resume w p f sig hv hfr h := by
+    obtain ⟨w0, h0, hb, e⟩ := hfr
+    exact ⟨hI.resume w p f sig hv ⟨w0, h0.1, hb, e⟩ h.1, hJ.resume w p f sig hv ⟨w0, h0.2, hb, e⟩ h.2⟩
   finish w p v st h := ⟨hI.finish w p v st h.1, hJ.finish w p v st h.2⟩
   clear w p f hf hb h := ⟨hI.clear w p f hf hb h.1, hJ.clear w p f hf hb h.2⟩
 
